@@ -534,8 +534,17 @@ func (db *Database) performFuzzySearch(query string, options SearchOptions) []Se
 	// Create search targets combining command and description
 	targets := make([]string, len(db.Commands))
 	var builder strings.Builder
+	currentPlatform := getCurrentPlatform()
 
 	for i, cmd := range db.Commands {
+		// Commands ruled out by the platform or pipeline filter keep an empty
+		// target: it never matches, and indices stay aligned with db.Commands
+		if !platformAllowed(&db.Commands[i], options, currentPlatform) {
+			continue
+		}
+		if options.PipelineOnly && !isPipelineCommand(&db.Commands[i]) {
+			continue
+		}
 		builder.Reset()
 		builder.WriteString(cmd.Command)
 		builder.WriteByte(' ')
